@@ -76,6 +76,50 @@ theorem delimiter_header (p : Plan) (h1 : p.delimiter ≠ []) (h2 : p.directives
   have : p.delimiter.isEmpty = false := by cases hd : p.delimiter <;> simp_all
   simp [directivesText, h2, this, intercalate]
 
+/-! ### checkpoint files -/
+
+theorem takeWhile_lt_of_mem : ∀ (f : Bytes), (0x0a : UInt8) ∈ f → (f.takeWhile (· != 0x0a)).length < f.length := by
+  intro f
+  induction f with
+  | nil => intro h; cases h
+  | cons b t ih =>
+    intro hnl
+    by_cases hb : b = 0x0a
+    · subst hb; simp
+    · have hb' : (b != 0x0a) = true := by simpa using hb
+      simp only [List.takeWhile_cons, hb', if_true, List.length_cons]
+      have : (0x0a : UInt8) ∈ t := by
+        rcases List.mem_cons.mp hnl with h | h
+        · exact absurd h.symm hb
+        · exact h
+      have := ih this
+      omega
+
+/-- a file that starts with a delimiter directive keeps it on its first line when another directive is
+added (repaired tree): the result is the first line, the new directive line, then the rest. -/
+theorem addDirective_keeps_first_line (name f : Bytes) (hd : hasDelimHeader f = true)
+    (hn : name ≠ delimiterName) (hnl : (0x0a : UInt8) ∈ f) :
+    addDirective true name f =
+      f.takeWhile (· != 0x0a) ++ [0x0a] ++
+        ([0x2d, 0x2d, 0x20] ++ Hash.atlasTag ++ name ++ [0x0a] ++ (if startsWithComment f then [] else [0x0a])) ++
+        f.drop ((f.takeWhile (· != 0x0a)).length + 1) := by
+  have hlt : (f.takeWhile (· != 0x0a)).length < f.length := takeWhile_lt_of_mem f hnl
+  unfold addDirective
+  have hne : (name != delimiterName) = true := by simpa using hn
+  simp only [hd, hne, hlt, Bool.and_self, decide_true, if_true]
+
+/-- the pinned commit puts the checkpoint directive in front of the delimiter directive … -/
+theorem pinned_checkpoint_hides_delimiter :
+    (formatCheckpoint false { delimiter := [0x47, 0x4f], changes := [{ cmd := Bytes.ascii ['A'] }, { cmd := Bytes.ascii ['B'] }] }).map
+      (fun f => f.take 20) = some (Bytes.ascii ['-', '-', ' ', 'a', 't', 'l', 'a', 's', ':', 'c', 'h', 'e', 'c', 'k', 'p', 'o', 'i', 'n', 't', '\n']) := by
+  decide
+
+/-- … the repaired tree keeps `-- atlas:delimiter GO` first. -/
+example :
+    (formatCheckpoint true { delimiter := [0x47, 0x4f], changes := [{ cmd := Bytes.ascii ['A'] }, { cmd := Bytes.ascii ['B'] }] }).map
+      (fun f => f.take 22) = some (Bytes.ascii ['-', '-', ' ', 'a', 't', 'l', 'a', 's', ':', 'd', 'e', 'l', 'i', 'm', 'i', 't', 'e', 'r', ' ', 'G', 'O', '\n']) := by
+  decide
+
 theorem rev_rev (cs : List Change) : rev (rev cs) = cs := by simp [rev]
 
 /-- **downStmts_spec** (shared with C17): the statements of the down file are the reverse statements
